@@ -630,7 +630,7 @@ func callSSAx(i *interpreter, caller *frame, callpos token.Pos, fn *ssa.Function
 			return nil
 		}
 		if fn.Blocks == nil {
-			unsupported("no code for function: %s [called from %s]", name, stackOf(caller, 5))
+			unsupported("no code for function: %s [called from %s]", name, stackOf(caller, 9))
 		}
 	}
 	if fn.TypeParams().Len() > 0 && len(fn.TypeArgs()) == 0 {
